@@ -29,6 +29,10 @@ def build(level='quick'):
     atoms = ATOMS if level != 'quick' else ATOMS[:10]
     for name, v in atoms:
         add(name, [lambda v=v: v])
+    # texts that occur in interception keys themselves: alias names, the key prefix
+    add('txt_alias_new', [lambda: 'the.alias.new'])
+    add('txt_alias_plain', [lambda: 'the.alias.plain'])
+    add('dict_alias_key', [lambda: {'the.alias.new': 'input: the.alias.plain args='}])
     add('plain_a1', [lambda: Plain(a=1)])
     add('other_a1', [lambda: Other(a=1)])
     add('plain_ab', [lambda: Plain(a=1, b=[1, 2]), lambda: Plain(b=[1, 2], a=1)])
